@@ -312,7 +312,8 @@ def r_base_store(ctx):
         gs = apps[0].guards if apps else ()
         raises = r.events_of("raise")
         silent_skip = [g for g in gs if not any(is_app(g, "not") and g[2] in ev.guards for ev in raises)]
-        returns_early = [ev for ev in r.events_of("return")]
+        # a conditional return of this very method (returns of inlined helpers are values, not exits of the method)
+        returns_early = [ev for ev in r.events_of("return") if ev.site.func.endswith("NamedUIDObject.append_z3_assertion") and ev.guards]
         if ok and not silent_skip and not returns_early:
             ctx.ok("R-BASE-STORE", f"{where}: the assertion is appended on every non-raising path")
         else:
